@@ -71,6 +71,7 @@ type Worker struct {
 	absFloatArith    bool
 	splitDiv         bool
 	boundedChans     bool
+	usedSched        bool
 	sched            *schedState
 	curFrame         *frame
 	curInstr         ssa.Instruction
